@@ -308,7 +308,7 @@ def judge_c01(mb, run, result):
         return e['port'] == mci['port'] and e['dir'] == 'out' and (wopen is None or c['seq'] < wopen)
 
     vs, _ = routing(h, dont_care)
-    return vs
+    return client_registration(h, run) + vs
 
 
 # ------------------------------------------------------------------------------------------------ C02
@@ -456,7 +456,7 @@ def judge_c10(mb, run, result):
     if ctor is None or ctor['result'] != 'ok':
         return []   # C09's subject
     fc = h.first('fc')
-    out = []
+    out = client_registration(h, run)
     if run['unbinds']:
         side, ev, cl = run['unbinds'][0]
         e = mb.events[ev]
@@ -491,6 +491,20 @@ def mc_deliveries(h: History, c):
             and c['seq'] < hd['seq'] < ret_seq and hd['in'] == c['in']]
 
 
+def client_registration(h: History, run):
+    """Every registered client identifier owns its own port object and is listed by the helper accessor."""
+    out = []
+    for r in h.by_kind.get('client_ports', []):
+        if r['distinct'] != '1':
+            out.append(Violation('multiclient:clients-share-a-port-object', f"identifiers {run.get('client_names')}"))
+    for r in h.by_kind.get('client_ids', []):
+        got = sorted([] if r['ids'] == '-' else r['ids'].split(','))
+        want = sorted(run.get('client_names') or [f'client{k}' for k in range(run['clients'])])
+        if got != want:
+            out.append(Violation('multiclient:registered-identifiers-not-listed', f'registered {want}, listed {got}'))
+    return out
+
+
 def judge_c04(mb, run, result):
     """Reference model of the statement: S = set of clients whose most recent completed claim was answered with the
     granting reply and who have not released since.  An out-event raised while no claim/release call is in flight
@@ -503,7 +517,7 @@ def judge_c04(mb, run, result):
     if ctor is None or ctor['result'] != 'ok' or fc is None or fc['result'] != 'ok':
         return [Violation('construction:valid-world-rejected', f'{ctor} {fc}')]
     mc = mb.mc
-    out = []
+    out = client_registration(h, run)
     calls = sorted(h.calls.values(), key=lambda c: c['seq'])
     ctl = [c for c in calls if c['side'] == 'o' and c['ev'] in (mc['claim'], mc['release'])]
     # timeline of the literal predicate
@@ -622,7 +636,7 @@ def judge_c11(mb, run, result):
     if ctor is None or ctor['result'] != 'ok' or fc is None or fc['result'] != 'ok':
         return [Violation('construction:valid-world-rejected', f'{ctor} {fc}')]
     mc = mb.mc
-    out = []
+    out = client_registration(h, run)
     calls = sorted(h.calls.values(), key=lambda c: c['seq'])
     vs, match_c = routing(h, lambda c: c['side'] == 'i' and c['ev'] in mc['out_events'])
     out += [x for x in vs if not x.cls.startswith('routing:phantom')]
